@@ -167,7 +167,10 @@ func c05StartPair(opts ...sftp.ServerOption) (*sftp.Client, func(), error) {
 // one run = one pair of twin trees + one client/server pair
 
 type c05Run struct {
-	mode             string // abs | rel
+	mode             string // abs | rel | cwd
+	cons             string // cwd: where the process is while the server is constructed (root | elsewhere)
+	rootC, home      string // cwd: a third copy of the tree (cons elsewhere); where the process is between operations
+	cwd              string // cwd: the process directory of the operations, relative to either root ("" = the root); physical
 	base             string
 	parentA, parentB string // snapshots are taken here (one level above the roots, so that links leading out are seen)
 	rootA, rootB     string
@@ -178,7 +181,7 @@ type c05Run struct {
 	restarts         int
 }
 
-func c05NewRun(mode string, tree []c05Ent) (*c05Run, error) {
+func c05NewRun(mode, cons string, tree []c05Ent) (*c05Run, error) {
 	base, err := lib.MkScratch("vh-c05-")
 	if err != nil {
 		return nil, err
@@ -186,7 +189,7 @@ func c05NewRun(mode string, tree []c05Ent) (*c05Run, error) {
 	if b, err := filepath.EvalSymlinks(base); err == nil {
 		base = b
 	}
-	r := &c05Run{mode: mode, base: base, parentA: base + "/A", parentB: base + "/B", cutoff: time.Now().Add(-time.Hour), horizon: time.Now().Add(time.Hour)}
+	r := &c05Run{mode: mode, cons: cons, base: base, parentA: base + "/A", parentB: base + "/B", cutoff: time.Now().Add(-time.Hour), horizon: time.Now().Add(time.Hour)}
 	r.rootA, r.rootB = r.parentA+"/r", r.parentB+"/r"
 	for _, d := range []string{r.parentA, r.parentB, r.rootA, r.rootB} {
 		if err := os.Mkdir(d, 0o755); err != nil {
@@ -199,7 +202,13 @@ func c05NewRun(mode string, tree []c05Ent) (*c05Run, error) {
 	if mode == "rel" {
 		r.opts = append(r.opts, sftp.WithServerWorkingDirectory(r.rootA))
 	}
-	r.cli, r.stop, err = c05StartPair(r.opts...)
+	if mode == "cwd" {
+		if err := r.cwdSetup(tree); err != nil {
+			os.RemoveAll(base)
+			return nil, err
+		}
+	}
+	r.cli, r.stop, err = r.startPair()
 	if err != nil {
 		os.RemoveAll(base)
 		return nil, err
@@ -218,7 +227,7 @@ func (r *c05Run) restart() error {
 	r.stop()
 	r.stop = nil
 	var err error
-	r.cli, r.stop, err = c05StartPair(r.opts...)
+	r.cli, r.stop, err = r.startPair()
 	r.restarts++
 	return err
 }
@@ -227,14 +236,18 @@ func (r *c05Run) close() {
 	if r.stop != nil {
 		r.stop()
 	}
+	r.leave()
 	os.RemoveAll(r.base)
 }
 
 // escapes says why op must not be run: one of its paths names something outside the scratch directories.
 func (r *c05Run) escapes(op c05Op) string {
-	baseA := ""
-	if r.mode == "rel" {
+	baseA, baseB := "", ""
+	switch r.mode {
+	case "rel":
 		baseA = r.rootA
+	case "cwd": // the paths are judged as they are handed over, from the directory the process will be in
+		baseA, baseB = r.cwdDir(r.rootA), r.cwdDir(r.rootB)
 	}
 	check := func(base, p string) string {
 		if ok, why := lib.InScratch(base, p); !ok {
@@ -252,7 +265,7 @@ func (r *c05Run) escapes(op c05Op) string {
 		if ok, why := lib.LinkTargetInScratch(baseA, r.pA(op.Q), tA); !ok {
 			return why
 		}
-		if ok, why := lib.LinkTargetInScratch("", r.pB(op.Q), tB); !ok {
+		if ok, why := lib.LinkTargetInScratch(baseB, r.argB(op.Q), tB); !ok {
 			return why
 		}
 	}
@@ -263,7 +276,7 @@ func (r *c05Run) escapes(op c05Op) string {
 		if why := check(baseA, r.pA(p)); why != "" {
 			return why
 		}
-		if why := check("", r.pB(p)); why != "" {
+		if why := check(baseB, r.argB(p)); why != "" {
 			return why
 		}
 		// ".." segments (after a symbolic link, too) must not lead to the directories the twin trees hang in: an
@@ -310,10 +323,22 @@ func (r *c05Run) opensFifo(op c05Op) bool {
 
 // pA is the path the client is given, pB the path package os is given.
 func (r *c05Run) pA(rel string) string {
-	if r.mode == "rel" {
+	switch r.mode {
+	case "rel":
 		return rel
+	case "cwd":
+		return r.fromCwd(rel)
 	}
 	return c05Join(r.rootA, rel)
+}
+
+// argB is the path package os is GIVEN (pB names the same entry for the harness's own looks at tree B): in path mode
+// cwd the very string the client gets, interpreted from the same place of the twin tree.
+func (r *c05Run) argB(rel string) string {
+	if r.mode == "cwd" {
+		return r.fromCwd(rel)
+	}
+	return r.pB(rel)
 }
 func (r *c05Run) pB(rel string) string { return c05Join(r.rootB, rel) }
 
@@ -637,7 +662,7 @@ func (r *c05Run) execA(op c05Op) c05Out {
 }
 
 func (r *c05Run) execB(op c05Op) c05Out {
-	p, q := r.pB(op.P), r.pB(op.Q)
+	p, q := r.argB(op.P), r.argB(op.Q)
 	switch op.K {
 	case "mkdir":
 		return c05Res(os.Mkdir(p, 0o755)) // documented: mkdir/mode
@@ -717,7 +742,7 @@ func (r *c05Run) execB(op c05Op) c05Out {
 		}
 		return c05Res(nil, r.listLines(l)...)
 	case "glob":
-		m, err := filepath.Glob(c05Join(r.rootB, op.P))
+		m, err := filepath.Glob(p)
 		if err != nil {
 			return c05Res(err)
 		}
@@ -874,18 +899,23 @@ func c05SortedCopy(a []string) []string {
 	return b
 }
 
-// c05RunSeq executes ops (or generates n of them from gen when ops is nil) on fresh twin trees.
+// c05RunSeq executes ops (or generates n of them from gen when gen is not nil) on fresh twin trees.
 // With light set, no histogram or case list is kept (used while shrinking).
-func c05RunSeq(mode string, tree []c05Ent, ops []c05Op, gen *rand.Rand, n int, light bool) *c05SeqResult {
-	res := &c05SeqResult{in: c05Input{Mode: mode, Tree: tree}, hist: map[string]int{}}
-	run, err := c05NewRun(mode, tree)
+// Path mode cwd moves the PROCESS: such a sequence runs here only in the child process made for it (c05RunJob).
+func c05RunSeq(mode, cons string, tree []c05Ent, ops []c05Op, gen *rand.Rand, n int, light bool) *c05SeqResult {
+	res := &c05SeqResult{in: c05Input{Mode: mode, Cons: cons, Tree: tree}, hist: map[string]int{}}
+	if mode == "cwd" && !c05InCwdChild {
+		res.tieErr = "a sequence of path mode cwd was started outside its child process"
+		return res
+	}
+	run, err := c05NewRun(mode, cons, tree)
 	if err != nil {
 		res.tieErr = "setup: " + err.Error()
 		return res
 	}
 	defer run.close()
 	var g *c05Gen
-	if ops == nil {
+	if gen != nil {
 		g = &c05Gen{rng: gen, rootB: run.rootB, pmode: mode}
 	} else {
 		n = len(ops)
@@ -903,6 +933,28 @@ func c05RunSeq(mode string, tree []c05Ent, ops []c05Op, gen *rand.Rand, n int, l
 			op = ops[step]
 		}
 		res.in.Ops = append(res.in.Ops, op)
+		if mode == "cwd" {
+			// the process directory of this step: still there, and still where it was, in both trees?
+			if run.cwdCheck() && !light {
+				res.hist["cwd:process-directory-gone,back-to-the-root"]++
+			}
+			if op.K == "chdir" {
+				bucket := fmt.Sprintf("cwd:chdir/depth=%d", 0)
+				if run.chdir(op) {
+					bucket = fmt.Sprintf("cwd:chdir/depth=%d", run.cwdDepth())
+				} else {
+					res.in.Ops = res.in.Ops[:len(res.in.Ops)-1]
+					bucket = "cwd:chdir/refused:not-a-directory-of-the-tree-or-too-deep"
+				}
+				if !light {
+					res.hist[bucket]++
+				}
+				continue
+			}
+		} else if op.K == "chdir" {
+			res.in.Ops = res.in.Ops[:len(res.in.Ops)-1]
+			continue
+		}
 
 		// what the path(s) meet, on tree B before the step
 		var shapes []string
@@ -955,11 +1007,27 @@ func c05RunSeq(mode string, tree []c05Ent, ops []c05Op, gen *rand.Rand, n int, l
 			}
 			continue
 		}
+		if run.movesCwd(op) {
+			res.in.Ops = res.in.Ops[:len(res.in.Ops)-1]
+			if !light {
+				res.hist["not-run/would-remove-or-move-the-process-directory"]++
+			}
+			continue
+		}
+		run.enter('A')
 		outA := c05Guard(func() c05Out { return run.execA(op) })
 		// package os is not under test, but a call of it that does not return (an open(2) that waits) must not cost the run
 		osDone := make(chan c05Out, 1)
-		go func() { osDone <- run.execB(op) }()
+		if mode == "cwd" && outA.Cat == "hang" {
+			// the client call is still running somewhere: the process stays out of the other tree, the os side is not run
+			// (the step is reported as a hang whatever package os does)
+			osDone <- c05Out{Cat: "not-run"}
+		} else {
+			run.enter('B')
+			go func() { osDone <- run.execB(op) }()
+		}
 		outB, osOK := lib.WaitHang("c05/package-os-side", 20*time.Second, osDone)
+		run.leave()
 		if !osOK {
 			res.tieErr = "the package os side of " + c05OpText(op) + " did not return within 20 s"
 			return res
@@ -1021,7 +1089,14 @@ func c05RunSeq(mode string, tree []c05Ent, ops []c05Op, gen *rand.Rand, n int, l
 		if !light {
 			nontrivial := outB.Cat != "ok" || changed || via
 			opj, _ := json.Marshal(op)
-			res.cases = append(res.cases, c05Case{mode + "|" + string(opj) + "|" + c05Hash(before), nontrivial})
+			where := mode
+			if mode == "cwd" {
+				where = "cwd(server constructed " + cons + ")@" + run.cwd
+				res.hist[fmt.Sprintf("cwd:operation/process-directory-depth=%d", run.cwdDepth())]++
+				res.hist["cwd:operation/server-constructed="+cons]++
+				res.hist["cwd:path/"+run.cwdSpelling(op)]++
+			}
+			res.cases = append(res.cases, c05Case{where + "|" + string(opj) + "|" + c05Hash(before), nontrivial})
 			res.hist["op:"+op.K+"/"+outB.Cat]++
 			res.hist["mode:"+mode]++
 			for _, s := range shapes {
@@ -1181,17 +1256,25 @@ func (r *c05Run) classify(op c05Op, what string, a, b c05Out, diff []string, lea
 			return "remove/error-from-stat-fallback", "REMOVE and RMDIR both failed with a non-ENOENT error (as os.Remove does), but Client.Remove then Stats the path and returns the STAT error (not-exist) instead"
 		}
 	}
+	// path mode cwd: a difference seen with paths relative to the process directory gets a key of its own (whatever
+	// is recognised by its mechanism above keeps its key)
+	pre, with := "", ""
+	if r.mode == "cwd" && what != "order" {
+		pre = "process-dir-relative/"
+		with = fmt.Sprintf(" (server without a working directory, constructed while the process was in %s; the call was made with the process in <root>/%s and got the path(s) %q %q, as package os did from the same place of its tree)",
+			map[string]string{"root": "the root of the served tree", "elsewhere": "another directory"}[r.cons], r.cwd, r.pA(op.P), r.pA(op.Q))
+	}
 	switch what {
 	case "category":
-		return fmt.Sprintf("%s/category/os=%s,sftp=%s", op.K, b.Cat, a.Cat), "outcome category differs from package os"
+		return fmt.Sprintf("%s%s/category/os=%s,sftp=%s", pre, op.K, b.Cat, a.Cat), "outcome category differs from package os" + with
 	case "value":
-		return op.K + "/value", "returned values differ from package os"
+		return pre + op.K + "/value", "returned values differ from package os" + with
 	case "order":
 		return op.K + "/order-not-lexical", "same entries visited, but not in the (lexical) order of the os side"
 	case "mtime":
-		return op.K + "/mtime", "modification times differ between the trees"
+		return pre + op.K + "/mtime", "modification times differ between the trees" + with
 	}
-	return op.K + "/tree", "the served tree differs from the os tree after the step"
+	return pre + op.K + "/tree", "the served tree differs from the os tree after the step" + with
 }
 
 // c05LinkInsideTarget decides the class "the path given to RemoveAll runs through a symbolic link that lives inside
@@ -1287,7 +1370,7 @@ func c05LinkInsideTarget(root, rel string) bool {
 // shrinking: delta debugging on fresh twin trees
 
 func c05Reproduces(in c05Input, key, sig string) bool {
-	res := c05RunSeq(in.Mode, in.Tree, in.Ops, nil, 0, true)
+	res := c05RunInput(in, true)
 	for _, f := range res.failures {
 		if f.Key == key && f.Sig == sig {
 			return true
@@ -1297,7 +1380,7 @@ func c05Reproduces(in c05Input, key, sig string) bool {
 }
 
 func c05Shrink(in c05Input, key, sig string, step int, until time.Time) c05Input {
-	cur := c05Input{Mode: in.Mode, Tree: append([]c05Ent(nil), in.Tree...), Ops: append([]c05Op(nil), in.Ops[:step+1]...)}
+	cur := c05Input{Mode: in.Mode, Cons: in.Cons, Tree: append([]c05Ent(nil), in.Tree...), Ops: append([]c05Op(nil), in.Ops[:step+1]...)}
 	if len(cur.Ops) == 0 {
 		cur.Ops = []c05Op{}
 	}
@@ -1386,7 +1469,7 @@ var c05WantedShapes = []string{
 
 func checkC05(c *lib.Ctx) {
 	r := c.R
-	r.Rule = "twin trees (seeded random small tree: dirs, files, relative/absolute/dangling/looping symlinks, hard links, one entry in eight a SPECIAL FILE — unix socket, fifo, character or block device node (mknod, device number 0:0; what the scratch file system allows is in the histogram storable:kind/*) —; one entry in five already carries boundary times, one in eight a boundary owner, some files a sparse boundary size) under one scratch dir; tree A served by a real os-backed Server to a real Client over pipes, tree B operated with package os; PRNG sequences of 25 operation kinds (the 23 of the property plus ReadDirContext with a live / cancelled / concurrently cancelled context, and Getwd) over the names a b c d with nesting <= 3 (paths biased to existing entries, their children, dir-symlinks, dangling links, non-empty dirs, files used as directories, special files themselves and used as directories), absolute paths and working-directory-relative paths (WithServerWorkingDirectory); one ABSOLUTE path in eight is spelled NON-CANONICALLY (trailing slash on files / directories / links of every kind, './', '/./', '//', a final '.', 'x/../p' over anything, 'link/../name' and 'link/..' after a symbolic link to a directory, 'e/../e') — the server has no working directory there and the kernel resolves what the client wrote; relative paths with a working directory, and RemoveAll / Walk in either mode, get such spellings only with VERIF_C05_NONCANON=1 (c05Gen.spell says why); operations that would open(2) a fifo are not run (they wait for its other end); attribute values are drawn from boundary tables with probability 0.4 (Chtimes seconds 0, 1, 2^31-1, 2^31, 2^32-1, atime != mtime in half of the calls), 0.15 (Truncate to 0, 1, 2^31-1, 2^31, 2^32-1, 2^32, 2^32+1: sparse files), 0.7 (Chown uid/gid 0, 1, 65534, 65535, 65536, 2^31-1, 2^31, 2^32-2, -1), Chmod with setuid/setgid/sticky in one call of four each; after every step: outcome category, returned values (every accessor of every FileInfo: Name, Size of non-directories, Mode, IsDir, Mode().IsDir, Mode().IsRegular, Mode().Type, ModTime to the second, owner; Walk with the FileInfo of every visit), access and modification time left by Chtimes, snapshot of both trees (names, types, modes, sizes, nlink, owners, contents — large files by their non-zero blocks —, link texts, mtimes that are not of the run itself). DIRECTED sequences (c05_attr.go), each in both path modes: every boundary time set through Chtimes on a file / directory / through a link (both times, only one of the two, two different boundaries) and already present on the entries, every boundary size set by Truncate and already present, every setuid/setgid/sticky combination set and already present, every boundary owner set and already present — each followed by Stat, Lstat, ReadDir, ReadDirContext, Walk, Glob and by unrelated changes; FILE KINDS: for each of socket / fifo / character device / block device a tree holding such entries (plain, hard-linked, behind a symbolic link, inside sub-directories, with boundary owner / time / setgid) under Stat, Lstat, ReadLink, ReadDir, ReadDirContext, Walk, Glob, RealPath, StatVFS, MkdirAll / Mkdir / Create / Rename / Link / Symlink THROUGH them, Chmod / Chtimes / Chown / Truncate, Link / Rename / PosixRename / Remove / RemoveDirectory OF them, RemoveAll of the directories holding them; NON-CANONICAL ABSOLUTE PATHS (abs mode only): 41 spellings x every operation kind but RemoveAll in six sequences (look, list, attr, create, rename, remove) over a tree where 'a/up/..' is not 'a'; directories of 129 / 1024 / 1100 entries (files, sub-directories, links) with names of 1 / 120 / 200 / 255 bytes listed by ReadDir, ReadDirContext (live, cancelled), through a link, Walk, Glob, then RemoveAll (thorough: 14 entry counts 0..4100 x 10 name lengths, all 36 atime/mtime pairs, more sizes and modes). One case = (path mode, operation, tree state before); non-trivial = the os outcome is an error category, or the tree changes, or a path goes through a symbolic link. quick: 150 generated sequences of 20..40 operations + 170 directed; thorough: 6000 of 60..120, 1000 of 200..400 + the directed ones; half of the sequences in each path mode. Every failing sequence is delta-debugged on fresh twin trees (operations, entry count and name length of filled directories by bisection, then seed-tree entries) within a time bound before it is reported; up to three witnesses with different signatures per key; a client that has lost its connection is replaced so that the rest of the sequence is judged on its own"
+	r.Rule = "twin trees (seeded random small tree: dirs, files, relative/absolute/dangling/looping symlinks, hard links, one entry in eight a SPECIAL FILE — unix socket, fifo, character or block device node (mknod, device number 0:0; what the scratch file system allows is in the histogram storable:kind/*) —; one entry in five already carries boundary times, one in eight a boundary owner, some files a sparse boundary size) under one scratch dir; tree A served by a real os-backed Server to a real Client over pipes, tree B operated with package os; PRNG sequences of 25 operation kinds (the 23 of the property plus ReadDirContext with a live / cancelled / concurrently cancelled context, and Getwd) over the names a b c d with nesting <= 3 (paths biased to existing entries, their children, dir-symlinks, dangling links, non-empty dirs, files used as directories, special files themselves and used as directories), absolute paths, working-directory-relative paths (WithServerWorkingDirectory), and PROCESS-DIRECTORY-RELATIVE paths (path mode cwd, c05_cwd.go: the server constructed WITHOUT a working directory — while the process is in the root of the served tree, or in a third copy of the tree — and every call made after the process has chdir'ed into its current place of the served tree, package os getting the very same relative string after a chdir into the same place of the twin tree; the place changes through 'chdir' steps, 7 in 100, into directories at most two levels down, through links to directories, back to the root, so paths are spelled 'x', '../x', '../../x', '.'; such sequences run one at a time in child processes); one ABSOLUTE or process-directory-relative path in eight is spelled NON-CANONICALLY (trailing slash on files / directories / links of every kind, './', '/./', '//', a final '.', 'x/../p' over anything, 'link/../name' and 'link/..' after a symbolic link to a directory, 'e/../e') — the server has no working directory there and the kernel resolves what the client wrote ('link/../x' is the x next to the link's target for the kernel and for package os, never <dir of link>/x); relative paths with a working directory, and RemoveAll / Walk in either mode, get such spellings only with VERIF_C05_NONCANON=1 (c05Gen.spell says why); operations that would open(2) a fifo are not run (they wait for its other end); attribute values are drawn from boundary tables with probability 0.4 (Chtimes seconds 0, 1, 2^31-1, 2^31, 2^32-1, atime != mtime in half of the calls), 0.15 (Truncate to 0, 1, 2^31-1, 2^31, 2^32-1, 2^32, 2^32+1: sparse files), 0.7 (Chown uid/gid 0, 1, 65534, 65535, 65536, 2^31-1, 2^31, 2^32-2, -1), Chmod with setuid/setgid/sticky in one call of four each; after every step: outcome category, returned values (every accessor of every FileInfo: Name, Size of non-directories, Mode, IsDir, Mode().IsDir, Mode().IsRegular, Mode().Type, ModTime to the second, owner; Walk with the FileInfo of every visit), access and modification time left by Chtimes, snapshot of both trees (names, types, modes, sizes, nlink, owners, contents — large files by their non-zero blocks —, link texts, mtimes that are not of the run itself). DIRECTED sequences (c05_attr.go), each in both path modes: every boundary time set through Chtimes on a file / directory / through a link (both times, only one of the two, two different boundaries) and already present on the entries, every boundary size set by Truncate and already present, every setuid/setgid/sticky combination set and already present, every boundary owner set and already present — each followed by Stat, Lstat, ReadDir, ReadDirContext, Walk, Glob and by unrelated changes; FILE KINDS: for each of socket / fifo / character device / block device a tree holding such entries (plain, hard-linked, behind a symbolic link, inside sub-directories, with boundary owner / time / setgid) under Stat, Lstat, ReadLink, ReadDir, ReadDirContext, Walk, Glob, RealPath, StatVFS, MkdirAll / Mkdir / Create / Rename / Link / Symlink THROUGH them, Chmod / Chtimes / Chown / Truncate, Link / Rename / PosixRename / Remove / RemoveDirectory OF them, RemoveAll of the directories holding them; NON-CANONICAL PATHS (abs mode, and mode cwd twice: server constructed in the root and the process staying there / constructed elsewhere and the process moving every seven operations): 41 spellings x every operation kind but RemoveAll in six sequences (look, list, attr, create, rename, remove) over a tree where 'a/up/..' is not 'a'; mode cwd also: from each of eight places (root, a, a/sub, through ld, b, through la, through a/up, root) Getwd, RealPath, Stat/Lstat of eleven entries, ReadDir, Glob, Walk, StatVFS, ReadLink, and a round of Mkdir, MkdirAll, Create, OpenFile, Symlink, Link, Rename, PosixRename, Chmod, Chtimes, Truncate, Chown, Remove, RemoveDirectory, RemoveAll with plain names; directories of 129 / 1024 / 1100 entries (files, sub-directories, links) with names of 1 / 120 / 200 / 255 bytes listed by ReadDir, ReadDirContext (live, cancelled), through a link, Walk, Glob, then RemoveAll (thorough: 14 entry counts 0..4100 x 10 name lengths, all 36 atime/mtime pairs, more sizes and modes). One case = (path mode, operation, tree state before); non-trivial = the os outcome is an error category, or the tree changes, or a path goes through a symbolic link. quick: 150 generated sequences of 20..40 operations (half abs, half rel) + 60 of mode cwd + 184 directed; thorough: 6000 of 60..120, 1000 of 200..400, 2000 of mode cwd + the directed ones. Every failing sequence is delta-debugged on fresh twin trees (operations, entry count and name length of filled directories by bisection, then seed-tree entries) within a time bound before it is reported; up to three witnesses with different signatures per key; a client that has lost its connection is replaced so that the rest of the sequence is judged on its own"
 	old := syscall.Umask(0o022) // documented: create/mode
 	defer syscall.Umask(old)
 	ids := []string{}
@@ -1406,7 +1489,8 @@ func checkC05(c *lib.Ctx) {
 			r.Fail(lib.Failure{Kind: "tie", Key: "replay", What: err.Error()})
 			return
 		}
-		res := c05RunSeq(in.Mode, in.Tree, in.Ops, nil, 0, false)
+		defer c05CwdShutdown()
+		res := c05RunInput(in, false)
 		c05Merge(r, res, nil)
 		for _, f := range res.failures {
 			r.Fail(lib.Failure{Kind: "oracle", Key: f.Key, What: fmt.Sprintf("step %d %s: %s", f.Step, c05OpText(f.Op), f.What), Input: in, Expected: f.Expected, Actual: f.Actual})
@@ -1415,23 +1499,27 @@ func checkC05(c *lib.Ctx) {
 	}
 
 	// quick: 150 sequences of 20..40 operations; thorough: 6000 of 60..120 and 1000 long ones of 200..400
-	nSeq, maxOps, nLong := 150, 40, 0
+	// path mode cwd (relative paths, server without a working directory, the process moving about): quick 60 more
+	// generated sequences, thorough 2000, run one at a time in child processes of their own (c05_cwd.go)
+	nSeq, maxOps, nLong, nCwd := 150, 40, 0, 60
 	started := time.Now()
 	deadline := time.Now().Add(30 * time.Second)
 	if c.Tier == "thorough" {
-		nSeq, maxOps, nLong = 7000, 120, 1000
+		nSeq, maxOps, nLong, nCwd = 7000, 120, 1000, 2000
 		deadline = time.Now().Add(9 * time.Minute)
 	}
 	type job struct {
 		mode string
+		cons string
 		seed int64
 		n    int
-		in   *c05Input // a directed sequence (c05_attr.go); nil: generated from seed
+		in   *c05Input // a directed sequence (c05_attr.go, c05_cwd.go); nil: generated from seed
 		fam  string
 	}
 	c05ProbeStorable(r)
-	directed := c05DirectedSeqs(c.Tier)
-	jobs := make([]job, nSeq, nSeq+len(directed))
+	defer c05CwdShutdown()
+	directed := append(c05DirectedSeqs(c.Tier), c05CwdSeqs(c.Tier)...)
+	jobs := make([]job, nSeq, nSeq+nCwd+len(directed))
 	for i := range jobs {
 		mode := "abs"
 		if i%2 == 1 {
@@ -1443,6 +1531,10 @@ func checkC05(c *lib.Ctx) {
 		}
 		jobs[i] = job{mode: mode, seed: c.Rand.Int63(), n: m/2 + c.Rand.Intn(m/2+1)}
 	}
+	for i := 0; i < nCwd; i++ {
+		jobs = append(jobs, job{mode: "cwd", cons: []string{"root", "elsewhere"}[i%2], seed: c.Rand.Int63(), n: maxOps/2 + c.Rand.Intn(maxOps/2+1)})
+	}
+	nSeq += nCwd
 	for i := range directed {
 		jobs = append(jobs, job{mode: directed[i].in.Mode, in: &directed[i].in, fam: directed[i].fam})
 	}
@@ -1454,16 +1546,30 @@ func checkC05(c *lib.Ctx) {
 		workers = 16
 	}
 	var wg sync.WaitGroup
-	next := make(chan int, nSeq)
+	// two queues: the sequences that run in this process, and those of path mode cwd, which have workers of their own
+	// (one child process each)
+	next, nextCwd := make(chan int, nSeq), make(chan int, nSeq)
+	put := func(i int) {
+		if jobs[i].mode == "cwd" {
+			nextCwd <- i
+		} else {
+			next <- i
+		}
+	}
 	for i := nRandom; i < nSeq; i++ { // the directed sequences first: they are few, and the largest ones take longest
-		next <- i
+		put(i)
 	}
 	for i := 0; i < nRandom; i++ {
-		next <- i
+		put(i)
 	}
 	close(next)
-	for w := 0; w < workers; w++ {
+	close(nextCwd)
+	for w := 0; w < workers+c05CwdProcs; w++ {
 		wg.Add(1)
+		next := next
+		if w >= workers {
+			next = nextCwd
+		}
 		go func() {
 			defer wg.Done()
 			for i := range next {
@@ -1471,13 +1577,11 @@ func checkC05(c *lib.Ctx) {
 					continue
 				}
 				if in := jobs[i].in; in != nil {
-					results[i] = c05RunSeq(in.Mode, in.Tree, in.Ops, nil, 0, false)
+					results[i] = c05RunInput(*in, false)
 					results[i].hist["directed:"+jobs[i].fam]++
 					continue
 				}
-				rng := rand.New(rand.NewSource(jobs[i].seed))
-				tree := c05SeedTree(rng)
-				results[i] = c05RunSeq(jobs[i].mode, tree, nil, rng, jobs[i].n, false)
+				results[i] = c05RunJob(c05Job{Mode: jobs[i].mode, Cons: jobs[i].cons, Gen: true, Seed: jobs[i].seed, N: jobs[i].n})
 			}
 		}()
 	}
@@ -1495,6 +1599,7 @@ func checkC05(c *lib.Ctx) {
 	shrunk := map[string]map[string]bool{}
 	skippedSeqs := 0
 	orderOff := 0
+	cwdSampled := 0
 	for i, res := range results {
 		if res == nil {
 			skippedSeqs++
@@ -1502,6 +1607,14 @@ func checkC05(c *lib.Ctx) {
 		}
 		orderOff += res.orderOff
 		c05Merge(r, res, &i)
+		if res.in.Mode == "cwd" && cwdSampled < 2 && len(res.in.Ops) > 0 && jobs[i].in == nil {
+			cwdSampled++
+			ops := res.in.Ops
+			if len(ops) > 12 {
+				ops = ops[:12]
+			}
+			r.Sample(map[string]any{"mode": "cwd", "server_constructed": res.in.Cons, "tree": res.in.Tree, "first_ops": ops, "ops_total": len(res.in.Ops)})
+		}
 		for _, f := range res.failures {
 			r.Hist("failure:" + f.Key)
 			// up to three minimised witnesses per key, each with a different signature; the rest is counted in the histogram
@@ -1512,11 +1625,18 @@ func checkC05(c *lib.Ctx) {
 				continue
 			}
 			shrunk[f.Key][f.Sig] = true
-			if strings.HasPrefix(f.Key, "hang/") {
+			if late := time.Now().After(shrinkEnd); late || strings.HasPrefix(f.Key, "hang/") {
 				// every re-run of a hanging sequence costs a hang deadline: the sequence is cut after the hanging call and
-				// reported as it is, not minimised
-				min := c05Input{Mode: res.in.Mode, Tree: append([]c05Ent{}, res.in.Tree...), Ops: append([]c05Op{}, res.in.Ops[:f.Step+1]...)}
-				r.Fail(lib.Failure{Kind: "oracle", Key: f.Key, What: fmt.Sprintf("%s [%s paths]: %s", c05OpText(f.Op), min.Mode, f.What), Input: min, Expected: f.Expected, Actual: f.Actual})
+				// reported as it is, not minimised; so is every sequence once the time for minimising is used up (a defect
+				// that shows under very many keys must not cost two more runs per key)
+				step := min(max(f.Step, 0), len(res.in.Ops)-1)
+				cut := c05Input{Mode: res.in.Mode, Cons: res.in.Cons, Tree: append([]c05Ent{}, res.in.Tree...), Ops: append([]c05Op{}, res.in.Ops[:step+1]...)}
+				what := f.What
+				if late {
+					r.Hist("failure-not-minimised:time-for-minimising-used-up")
+					what += " (the sequence up to the failing step, not minimised: the time for minimising was used up)"
+				}
+				r.Fail(lib.Failure{Kind: "oracle", Key: f.Key, What: fmt.Sprintf("%s [%s paths]: %s", c05OpText(f.Op), cut.Mode, what), Input: cut, Expected: f.Expected, Actual: f.Actual})
 				continue
 			}
 			until := time.Now().Add(shrinkOne)
@@ -1526,7 +1646,7 @@ func checkC05(c *lib.Ctx) {
 			min := c05Shrink(res.in, f.Key, f.Sig, f.Step, until)
 			// re-run the minimal input for the evidence shown with it
 			exp, act, what, stepText := f.Expected, f.Actual, f.What, c05OpText(f.Op)
-			if rr := c05RunSeq(min.Mode, min.Tree, min.Ops, nil, 0, true); rr != nil {
+			if rr := c05RunInput(min, true); rr != nil {
 				for _, g := range rr.failures {
 					if g.Key == f.Key && g.Sig == f.Sig {
 						exp, act, what, stepText = g.Expected, g.Actual, g.What, c05OpText(g.Op)
